@@ -60,4 +60,93 @@ def items(Item, NUMT):
         # ---- utils/clipping.rs -----------------------------------------------------------------------------
         Item("clip_is_inside", "src/utils/clipping.rs", None, "is_inside", ret="bool", out="ScalarClip"),
         Item("clip_compute_intersection", "src/utils/clipping.rs", None, "compute_intersection", ret=("struct", "Coord"), out="ScalarClip"),
+    ] + visual_items(Item, NUMT) + nms_items(Item, NUMT) + own_area_items(Item, NUMT) + tracker_items(Item, NUMT)
+
+
+def visual_items(Item, NUMT):
+    """trackers/visual_sort/metric.rs -> gen/ScalarVisual.v"""
+    UB = ("struct", "Universal2DBox")
+    OPT = ("option", NUMT)
+    VK = ("enum", "VisualSortMetricType")
+    f = "src/trackers/visual_sort/metric.rs"
+    return [
+        Item("visual_is_ok", f, r"impl\s+VisualSortMetricType\b", "is_ok", key="is_ok", self_enum="VisualSortMetricType", ret="bool", out="ScalarVisual"),
+        Item("visual_distance_to_weight", f, r"impl\s+VisualSortMetricType\b", "distance_to_weight", key="distance_to_weight",
+             self_enum="VisualSortMetricType", ret=NUMT, out="ScalarVisual"),
+        # parameters: bbox_opt feature_quality visual_minimal_quality visual_own_area_percentage visual_minimal_area_percentage visual_minimal_area
+        Item("visual_feature_can_be_used", f, r"impl\s+VisualMetric\b", "feature_can_be_used", key="feature_can_be_used", ret="bool", out="ScalarVisual",
+             subst=[("self.opts.visual_minimal_area", "visual_minimal_area", NUMT)]),
+        # parameters: collected min_len kind d_euclidean d_cosine
+        Item("visual_metric", f, r"impl\s+VisualMetric\b", "visual_metric", key="visual_metric", ret=OPT, out="ScalarVisual",
+             subst=[("track_attributes.visual_features_collected_count", "collected", "N"),
+                    ("self.opts.visual_minimal_track_length", "min_len", "N"),
+                    ("self.opts.visual_kind", "kind", VK),
+                    ("euclidean(candidate_observation_feature, track_observation_feature)", "d_euclidean", NUMT),
+                    ("cosine(candidate_observation_feature, track_observation_feature)", "d_cosine", NUMT)]),
+        # parameters: candidate_opt track_opt min_confidence method far dist iou
+        Item("visual_positional_metric", f, r"impl\s+VisualMetric\b", "positional_metric", key="positional_metric", ret=OPT, out="ScalarVisual",
+             subst=[("self.opts.positional_min_confidence", "min_confidence", NUMT),
+                    ("self.opts.positional_kind", "method", ("enum", "PositionalMetricType")),
+                    ("Universal2DBox::too_far(candidate_observation_bbox, track_observation_bbox)", "far", "bool"),
+                    ("f.distance(state, candidate_observation_bbox)", "dist", NUMT),
+                    ("Universal2DBox::calculate_metric_object(&candidate_observation_bbox_opt.as_ref(), &track_observation_bbox_opt.as_ref())", "iou", OPT)],
+             opaque_lets=("state", "f")),
+        # optimize_observations: when the gallery is full the worst observation is dropped
+        Item("visual_truncate_cmp", f, r"impl\s+VisualMetric\b", "optimize_observations",
+             snippet=r"fn optimize_observations\b.*?\bif\s+(observations\.len\(\)[^{}]*?)\s*\{\s*observations\.truncate",
+             params=[], ret="bool", out="ScalarVisual",
+             subst=[("observations.len()", "len", "N"), ("self.opts.visual_max_observations", "max_obs", "N")]),
+        Item("visual_truncate_len", f, r"impl\s+VisualMetric\b", "optimize_observations",
+             snippet=r"fn optimize_observations\b.*?observations\.truncate\((.*?)\);",
+             params=[], ret="N", out="ScalarVisual", subst=[("observations.len()", "len", "N")]),
     ]
+
+
+def nms_items(Item, NUMT):
+    """utils/nms.rs -> gen/ScalarNms.v"""
+    UB = ("struct", "Universal2DBox")
+    OPT = ("option", NUMT)
+    f = "src/utils/nms.rs"
+    return [
+        # the coverage metric of the lower-ranked box ob by the higher-ranked box cb: intersection(cb, ob) / area(ob)
+        Item("nms_metric", f, None, "nms", snippet=r"pub fn nms\b.*?let metric\s*=\s*(.*?);", params=[], ret=NUMT, out="ScalarNms",
+             subst=[("ob.bbox", "ob_bbox", UB), ("Universal2DBox::intersection(cb.bbox, ob.bbox)", "inter", NUMT)]),
+        Item("nms_covers_cmp", f, None, "nms", snippet=r"pub fn nms\b.*?\bif\s+(metric[^{}]*?)\s*\{\s*excluded\.insert",
+             params=[("metric", NUMT), ("nms_threshold", NUMT)], ret="bool", out="ScalarNms"),
+        Item("nms_score_filter", f, None, "nms", snippet=r"pub fn nms\b.*?\.filter\(\|\(e, score\)\|\s*\{\s*(.*?)\s*\}\)",
+             params=[("e", UB), ("score", OPT), ("score_threshold", NUMT)], ret="bool", out="ScalarNms"),
+        Item("nms_score_threshold_default", f, None, "nms", snippet=r"pub fn nms\b.*?let score_threshold\s*=\s*(.*?);",
+             params=[("score_threshold", OPT)], ret=NUMT, out="ScalarNms"),
+        Item("nms_rank", f, r"impl<'a>\s+Candidate<'a>", "new", snippet=r"\brank:\s*(rank\.unwrap_or\(.*?\)),",
+             params=[("bbox", UB), ("rank", OPT)], ret=NUMT, out="ScalarNms"),
+    ]
+
+
+def own_area_items(Item, NUMT):
+    """utils/clipping/bbox_own_areas.rs -> gen/ScalarOwnArea.v"""
+    UB = ("struct", "Universal2DBox")
+    f = "src/utils/clipping/bbox_own_areas.rs"
+    return [
+        Item("own_share_raw", f, None, "exclusively_owned_areas_normalized_shares",
+             snippet=r"fn exclusively_owned_areas_normalized_shares\b.*?\.map\(\|\(b, poly\)\|\s*(.*?)\)\s*\.map\(\|e\|",
+             params=[("b", UB)], ret=NUMT, out="ScalarOwnArea", subst=[("poly.unsigned_area()", "poly_area", NUMT)]),
+        Item("own_share_clamp", f, None, "exclusively_owned_areas_normalized_shares",
+             snippet=r"fn exclusively_owned_areas_normalized_shares\b.*?\.map\(\|e\|\s*(if .*?\})\s*\)\s*\.collect",
+             params=[("e", NUMT)], ret=NUMT, out="ScalarOwnArea"),
+    ]
+
+
+def tracker_items(Item, NUMT):
+    """the auto-waste prologue of the four predict functions -> gen/ScalarTracker.v
+    (counter, periodicity) -> (collect?, counter')"""
+    pro = r"(if self\.auto_waste\.counter[^{}]*\{[^{}]*\}\s*else\s*\{[^{}]*\})"
+    res = []
+    for name, f, fn in (("auto_waste_prologue_sort", "src/trackers/sort/simple_api.rs", "predict_with_scene"),
+                        ("auto_waste_prologue_batch_sort", "src/trackers/sort/batch_api.rs", "predict"),
+                        ("auto_waste_prologue_visual", "src/trackers/visual_sort/simple_api.rs", "predict_with_scene"),
+                        ("auto_waste_prologue_batch_visual", "src/trackers/visual_sort/batch_api.rs", "predict")):
+        res.append(Item(name, f, None, fn, snippet=r"pub fn %s\b\s*\([^{]*\{\s*" % fn + pro, params=[], out="ScalarTracker",
+                        ret=("tuple", ["bool", "N"]),
+                        state=[("self.auto_waste.counter", "counter", "N")], events=["self.auto_waste()"],
+                        subst=[("self.auto_waste.periodicity", "periodicity", "N")]))
+    return res
